@@ -244,7 +244,7 @@ mem_replace_arr(const void *src, const size_t src_size, const size_t repl_count,
 	size_t ret_count = 0;
 	uint8_t *dst_buf, *fouded_local[32];
 	const uint8_t *src_buf;
-	register uint8_t *dst_cur, *dst_max;
+	size_t dst_off = 0; /* Size of output, can be more than dst_size. */
 	register const uint8_t *src_cur, *src_cur_prev;
 	uint8_t **founded = fouded_local;
 	register size_t i, first_idx = 0, founded_cnt = 0;
@@ -260,8 +260,6 @@ mem_replace_arr(const void *src, const size_t src_size, const size_t repl_count,
 	dst_buf = (uint8_t*)dst;
 	src_buf = (const uint8_t*)src;
 	src_cur_prev = src_buf;
-	dst_cur = dst_buf;
-	dst_max = (dst_buf + dst_size);
 	for (i = 0; i < repl_count; i ++) { // scan for replace in first time
 		founded[i] = (uint8_t*)mem_find(src_buf, src_size, src_repl[i],
 		    src_repl_counts[i]);
@@ -288,12 +286,14 @@ mem_replace_arr(const void *src, const size_t src_size, const size_t repl_count,
 			break; /* Should newer happen. */
 		// in founded
 		i = (size_t)(founded[first_idx] - src_cur_prev);
-		if (dst_max <= (dst_cur + (i + src_repl_counts[first_idx])))
-			return (ENOBUFS);
-		memmove(dst_cur, src_cur_prev, i);
-		dst_cur += i;
-		memcpy(dst_cur, dst_repl[first_idx], dst_repl_counts[first_idx]);
-		dst_cur += dst_repl_counts[first_idx];
+		/* Write only while all fits, keep counting to report required size. */
+		if (dst_size >= dst_off &&
+		    (dst_size - dst_off) >= (i + dst_repl_counts[first_idx])) {
+			memmove((dst_buf + dst_off), src_cur_prev, i);
+			memcpy((dst_buf + dst_off + i), dst_repl[first_idx],
+			    dst_repl_counts[first_idx]);
+		}
+		dst_off += (i + dst_repl_counts[first_idx]);
 		src_cur_prev = (founded[first_idx] + src_repl_counts[first_idx]);
 		ret_count ++;
 
@@ -308,15 +308,21 @@ mem_replace_arr(const void *src, const size_t src_size, const size_t repl_count,
 		}
 	} /* while */
 	src_cur = (src_buf + src_size);
-	memmove(dst_cur, src_cur_prev, (size_t)(src_cur - src_cur_prev));
-	dst_cur += (src_cur - src_cur_prev);
+	i = (size_t)(src_cur - src_cur_prev);
+	if (dst_size >= dst_off &&
+	    (dst_size - dst_off) >= i) {
+		memmove((dst_buf + dst_off), src_cur_prev, i);
+	}
+	dst_off += i;
 
-	if (NULL != dst_size_ret) {
-		(*dst_size_ret) = (size_t)(dst_cur - dst_buf);
+	if (NULL != dst_size_ret) { /* Output size or required size. */
+		(*dst_size_ret) = dst_off;
 	}
 	if (NULL != replaced) {
 		(*replaced) = ret_count;
 	}
+	if (dst_off > dst_size)
+		return (ENOBUFS);
 	return (0);
 }
 
